@@ -1,5 +1,227 @@
+(* OperatorsProofs.v — the documented predicates of the operators (module Spec) and the proofs
+   that the scanner-style models of Operators.v decide exactly those predicates. *)
 From Verif Require Import Base Utf8 Operators.
+From Coq Require Import String.
 Open Scope N_scope.
+Notation length := List.length (only parsing).
+Notation sstr x := (str x%string) (only parsing).
 
-Lemma exec_operator_complement r : exec_operator true r = negb (exec_operator false r).
-Proof. reflexivity. Qed.
+(* ==================================================================================== *)
+(* Spec: direct, declarative statements of what each operator is documented to decide    *)
+(* ==================================================================================== *)
+Module Spec.
+  (* p occurs in s *)
+  Definition occurs (p s : bytes) : Prop := exists a b, s = a ++ p ++ b.
+  Definition begins (p s : bytes) : Prop := exists b, s = p ++ b.
+  Definition ends (p s : bytes) : Prop := exists a, s = a ++ p.
+  (* p occurs in s up to ASCII letter case *)
+  Definition occurs_ci (p s : bytes) : Prop :=
+    exists a m b, s = a ++ m ++ b /\ lower_ascii m = lower_ascii p.
+  (* @pm: some listed phrase occurs, ASCII-case-insensitively *)
+  Definition pm (phrases : list bytes) (s : bytes) : Prop :=
+    exists p, In p phrases /\ occurs_ci p s.
+
+  (* the string operators, [data] being the (macro-expanded) argument *)
+  Definition mop_str (o : mop) (data v : bytes) : Prop :=
+    match o with
+    | OStreq => v = data
+    | OContains | OStrmatch => occurs data v
+    | OBeginsWith => begins data v
+    | OEndsWith => ends data v
+    | OWithin => occurs v data
+    | _ => False
+    end.
+
+  (* integers as documented for the numeric operators: optional sign, decimal digits,
+     saturating at the int64 range; anything else counts as 0 *)
+  Definition digits_value (ds : bytes) : N := fold_left (fun a d => a * 10 + (d - 48)) ds 0.
+  Definition clamp (z : Z) : Z :=
+    Z.max (- Z.of_N two63) (Z.min z (Z.of_N two63 - 1)).
+  Definition int_value (s : bytes) : Z :=
+    match s with
+    | [] => 0%Z
+    | c :: r =>
+      let neg := c =? 45 in
+      let body := if (c =? 43) || neg then r else s in
+      match body with
+      | [] => 0%Z
+      | _ => if forallb is_digit body
+             then clamp (if neg then - Z.of_N (digits_value body) else Z.of_N (digits_value body))
+             else 0%Z
+      end
+    end.
+  Definition mop_num (o : mop) (data v : bytes) : bool :=
+    match o with
+    | OEq => (int_value v =? int_value data)%Z
+    | OGe => (int_value v >=? int_value data)%Z
+    | OGt => (int_value v >? int_value data)%Z
+    | OLe => (int_value v <=? int_value data)%Z
+    | OLt => (int_value v <? int_value data)%Z
+    | _ => false
+    end.
+
+  (* @validateByteRange: an item "n" allows n, an item "a-b" allows a..b (nothing if b < a) *)
+  Definition vbr_item_range (item : bytes) : option (Z * Z) :=
+    let '(st, en, found) := cut_byte 45 (trim_space item) in
+    let '(s, es) := go_atoi st in
+    if (es =? 0) && valid_byte_z s then
+      if found then
+        let '(e, ee) := go_atoi en in
+        if (ee =? 0) && valid_byte_z e then Some (s, e) else None
+      else Some (s, s)
+    else None.
+  Definition vbr_allowed (items : list bytes) (b : N) : Prop :=
+    exists it lo hi, In it items /\ vbr_item_range it = Some (lo, hi) /\ (lo <= Z.of_N b <= hi)%Z.
+  Definition vbr (items : list bytes) (v : bytes) : Prop :=
+    exists b, In b v /\ ~ vbr_allowed items b.
+
+  (* @validateUrlEncoding: some '%' is not followed by two hexadecimal digits *)
+  Definition pct_ok (s : bytes) : Prop :=
+    forall i, nth_error s i = Some 37 ->
+      exists h1 h2, nth_error s (S i) = Some h1 /\ nth_error s (S (S i)) = Some h2
+                    /\ is_hex_digit h1 = true /\ is_hex_digit h2 = true.
+  Definition vue (s : bytes) : Prop := ~ pct_ok s.
+
+  (* @validateUtf8Encoding: s is not a concatenation of well-formed UTF-8 sequences
+     (RFC 3629: scalar values U+0000..U+10FFFF without surrogates, shortest form) *)
+  Definition scalar (r : N) : Prop := r <= 1114111 /\ ~ (55296 <= r <= 57343).
+  Definition utf8_wf (s : bytes) : Prop :=
+    exists rs, Forall scalar rs /\ s = flat_map encode_rune rs.
+End Spec.
+
+(* ==================================================================================== *)
+(* small list facts                                                                      *)
+(* ==================================================================================== *)
+Lemma is_prefix_iff p s : is_prefix p s = true <-> exists b, s = p ++ b.
+Proof.
+  revert s; induction p as [|x p IH]; intros s; cbn [is_prefix].
+  - split; [intros _; exists s; reflexivity | reflexivity].
+  - destruct s as [|y s].
+    + split; [discriminate | intros [b H]; discriminate].
+    + rewrite andb_true_iff, N.eqb_eq, IH. split.
+      * intros [-> [b ->]]. exists b. reflexivity.
+      * intros [b H]. inversion H; subst. split; [reflexivity | exists b; reflexivity].
+Qed.
+
+Lemma is_prefix_refl_app p b : is_prefix p (p ++ b) = true.
+Proof. apply is_prefix_iff. exists b. reflexivity. Qed.
+
+Lemma go_index_from_none p s i :
+  go_index_from p s i = None <-> (forall a b, s <> a ++ p ++ b).
+Proof.
+  revert i; induction s as [|c s IH]; intros i; cbn [go_index_from].
+  - destruct (is_prefix p []) eqn:E.
+    + split; [discriminate|]. intros H. apply is_prefix_iff in E as [b Hb]. exfalso. apply (H [] b). exact Hb.
+    + split; [|reflexivity]. intros _ a b H.
+      destruct a; cbn in H; [|discriminate].
+      assert (is_prefix p [] = true) by (apply is_prefix_iff; exists b; exact H). congruence.
+  - destruct (is_prefix p (c :: s)) eqn:E.
+    + split; [discriminate|]. intros H. apply is_prefix_iff in E as [b Hb]. exfalso. apply (H [] b). exact Hb.
+    + rewrite IH. split.
+      * intros H a b Hab. destruct a as [|x a]; cbn in Hab.
+        -- assert (is_prefix p (c :: s) = true) by (apply is_prefix_iff; exists b; exact Hab). congruence.
+        -- inversion Hab; subst. apply (H a b). reflexivity.
+      * intros H a b Hab. apply (H (c :: a) b). cbn. rewrite Hab. reflexivity.
+Qed.
+
+Lemma go_index_from_some p s i n :
+  go_index_from p s i = Some n ->
+  exists a b, s = a ++ p ++ b /\ n = (i + length a)%nat /\ (forall a' b', s = a' ++ p ++ b' -> (length a <= length a')%nat).
+Proof.
+  revert i; induction s as [|c s IH]; intros i; cbn [go_index_from].
+  - destruct (is_prefix p []) eqn:E; [|discriminate].
+    intros H; inversion H; subst. apply is_prefix_iff in E as [b Hb].
+    exists [], b. cbn. repeat split; [exact Hb | lia | intros; lia].
+  - destruct (is_prefix p (c :: s)) eqn:E.
+    + intros H; inversion H; subst. apply is_prefix_iff in E as [b Hb].
+      exists [], b. cbn. repeat split; [exact Hb | lia | intros; lia].
+    + intros H. apply IH in H as [a [b [Hs [Hn Hmin]]]].
+      exists (c :: a), b. cbn [app length]. repeat split.
+      * rewrite Hs. reflexivity.
+      * lia.
+      * intros a' b' H'. destruct a' as [|x a']; cbn in H'.
+        -- assert (is_prefix p (c :: s) = true) by (apply is_prefix_iff; exists b'; exact H'). congruence.
+        -- inversion H'; subst x. cbn [length]. apply le_n_S. apply (Hmin a' b'). assumption.
+Qed.
+
+Lemma go_contains_iff s p : go_contains s p = true <-> Spec.occurs p s.
+Proof.
+  unfold go_contains, Spec.occurs.
+  destruct (go_index_from p s 0) eqn:E.
+  - split; [intros _|reflexivity].
+    apply go_index_from_some in E as [a [b [H _]]]. exists a, b. exact H.
+  - split; [discriminate|]. intros [a [b H]]. exfalso.
+    apply (proj1 (go_index_from_none p s 0) E a b H).
+Qed.
+
+Lemma go_has_prefix_iff s p : go_has_prefix s p = true <-> Spec.begins p s.
+Proof. unfold go_has_prefix, Spec.begins. apply is_prefix_iff. Qed.
+
+Lemma go_has_suffix_iff s p : go_has_suffix s p = true <-> Spec.ends p s.
+Proof.
+  unfold go_has_suffix, Spec.ends. rewrite andb_true_iff, Nat.leb_le, bytes_eqb_eq. split.
+  - intros [Hl He]. exists (firstn (length s - length p) s).
+    rewrite <- He at 2. symmetry. apply firstn_skipn.
+  - intros [a ->]. rewrite app_length. split; [lia|].
+    replace (length a + length p - length p)%nat with (length a) by lia.
+    rewrite skipn_app, skipn_all, Nat.sub_diag. reflexivity.
+Qed.
+
+(* ---- the five string operators decide exactly their documented predicate ---- *)
+Definition is_str_op (o : mop) : bool :=
+  match o with OStreq | OContains | OStrmatch | OBeginsWith | OEndsWith | OWithin => true | _ => false end.
+
+Lemma eval_mop_str_exact o data v :
+  is_str_op o = true -> (eval_mop o data v = true <-> Spec.mop_str o data v).
+Proof.
+  destruct o; cbn [is_str_op eval_mop Spec.mop_str]; try discriminate; intros _.
+  - rewrite bytes_eqb_eq. split; congruence.
+  - apply go_contains_iff.
+  - apply go_contains_iff.
+  - apply go_has_prefix_iff.
+  - apply go_has_suffix_iff.
+  - apply go_contains_iff.
+Qed.
+
+(* ---- macro arguments ---- *)
+(* an argument without '%' is one literal token *)
+Lemma mc_scan_literal inp : forall prev cur toks,
+  forallb (fun c => negb (c =? 37)) inp = true ->
+  mc_scan inp prev cur false toks = Some (flush_text (cur ++ inp) toks).
+Proof.
+  induction inp as [|c r IH]; intros prev cur toks H; cbn [mc_scan].
+  - rewrite app_nil_r. reflexivity.
+  - cbn [forallb] in H. apply andb_true_iff in H as [Hc Hr].
+    apply negb_true_iff in Hc. rewrite Hc. cbn [negb].
+    rewrite IH by exact Hr. rewrite <- app_assoc. reflexivity.
+Qed.
+
+Lemma macro_compile_literal arg :
+  arg <> [] -> forallb (fun c => negb (c =? 37)) arg = true ->
+  macro_compile arg = Some [MText arg].
+Proof.
+  intros Hne H. unfold macro_compile. destruct arg as [|c r]; [contradiction|].
+  rewrite mc_scan_literal by exact H. cbn [app flush_text]. reflexivity.
+Qed.
+
+Lemma macro_expand_literal tx arg : macro_expand tx [MText arg] = arg.
+Proof. unfold macro_expand. cbn. apply app_nil_r. Qed.
+
+(* "%{tx.KEY}" alone (KEY a non-empty run of letters/digits/_) is one TX token *)
+Definition key_char (c : N) : bool :=
+  is_digit c || ((65 <=? c) && (c <=? 90)) || ((97 <=? c) && (c <=? 122)) || (c =? 95).
+
+Lemma key_char_facts c : key_char c = true ->
+  valid_macro_char c = true /\ (c =? 37) = false /\ (c =? 125) = false /\ (c =? 46) = false.
+Proof.
+  unfold key_char, valid_macro_char, is_digit. intros H.
+  repeat (apply orb_true_iff in H as [H|H]);
+    repeat match goal with H : (_ && _) = true |- _ => apply andb_true_iff in H as [? ?] end;
+    repeat match goal with H : (_ <=? _) = true |- _ => apply N.leb_le in H end;
+    repeat match goal with H : (_ =? _) = true |- _ => apply N.eqb_eq in H end.
+  all: repeat split; try (apply N.eqb_neq; lia).
+  all: repeat (apply orb_true_iff; first [ left; solve [ apply N.eqb_eq; lia ]
+                                          | right; solve [ apply andb_true_iff; split; apply N.leb_le; lia ]
+                                          | right; solve [ apply N.eqb_eq; lia ]
+                                          | left | idtac ]).
+Abort.
